@@ -464,7 +464,31 @@ inline model::MPoly polygon(Ctx& c, bool allow_big) {
             p.pts = rect_pts(point(c), w, h);
         } break;
         case 2:
-        case 3: p.pts = r.chance(0.2) ? ctrap_triangle(c) : trapezoid(c); break;
+        case 3:
+            if (r.chance(0.2)) {
+                p.pts = ctrap_triangle(c);
+                if (r.chance(0.35)) {
+                    // a near miss: one vertex slid along x or y inside the triangle's box, so that most of what makes
+                    // it a compact trapezoid (box ratio, apex on the centre line) still holds and one thing does not
+                    dg_t x0 = p.pts[0].x, x1 = x0, y0 = p.pts[0].y, y1 = y0;
+                    for (auto& q : p.pts) {
+                        x0 = std::min(x0, q.x);
+                        x1 = std::max(x1, q.x);
+                        y0 = std::min(y0, q.y);
+                        y1 = std::max(y1, q.y);
+                    }
+                    std::vector<Pt> was = p.pts;
+                    Pt& q = p.pts[r.below(3)];
+                    if (r.chance(0.5))
+                        q.x = r.range(x0 / 10, x1 / 10) * 10;
+                    else
+                        q.y = r.range(y0 / 10, y1 / 10) * 10;
+                    if (orient(p.pts[0], p.pts[1], p.pts[2]) == 0) p.pts = was;  // keep an area
+                }
+            } else {
+                p.pts = trapezoid(c);
+            }
+            break;
         case 4: p.pts = staircase(c, (int)r.range(1, std::max(1, c.cfg.max_vertices / 2 - 1))); break;
         case 5: {  // circle candidate
             int n = (int)r.range(12, std::max(12, std::min(96, c.cfg.max_vertices * 2)));
@@ -676,6 +700,26 @@ inline model::MPath path(Ctx& c) {
     p.scale_width = oas ? true : r.chance(0.75);
     p.rep = repetition(c, false);
     p.props = props(c, true);
+    if (c.cfg.multi_element_simple_paths && r.chance(0.05)) {
+        // one element whose offset from the spine changes along the way (a straight axis-parallel spine of four
+        // to seven vertices: the centre line written is the spine displaced sideways, exactly)
+        Pt a = Pt{canon::rgrid(p.spine[0].x) * 10, canon::rgrid(p.spine[0].y) * 10};
+        int n = (int)r.range(4, 7);
+        bool horiz2 = r.chance(0.5);
+        dg_t sgn = r.chance(0.5) ? 1 : -1;
+        p.spine.clear();
+        p.voffs.clear();
+        dg_t off = r.chance(0.5) ? 0 : 2 * ongrid(c, -20, 20);
+        int change_from = (int)r.range(1, n - 1);
+        for (int i = 0; i < n; i++) {
+            p.spine.push_back(a);
+            if (i >= change_from && r.chance(0.7)) off = 2 * ongrid(c, -20, 20);
+            p.voffs.push_back(off);
+            dg_t step = ongrid(c, 60, 300) * sgn;
+            a = horiz2 ? Pt{a.x + step, a.y} : Pt{a.x, a.y + step};
+        }
+        return p;
+    }
     if (c.cfg.multi_element_simple_paths && r.chance(0.08)) {
         // a straight axis-parallel centre line with two or three parallel elements: every element is a PATH
         // record of its own, displaced sideways by an exact amount
@@ -730,6 +774,32 @@ inline model::MPath path(Ctx& c) {
         for (int i = 1; i < n2; i++) {
             cur2 = Pt{cur2.x + reach + ongrid(c, 0, 100), cur2.y + ongrid(c, -40, 40) * (reach / 400 + 1)};
             p.spine.push_back(cur2);
+        }
+    }
+    if (p.simple && p.impl == 0 && p.nelem == 1 && p.bend == 0 && r.chance(0.05)) {
+        // a path with a coarse tolerance of its own and a densely sampled stretch: the writer leaves out every
+        // vertex closer than the tolerance to the last one it kept
+        static const double tols[] = {1.05, 2.05, 5.05, 10.05};
+        std::vector<Pt> was = p.spine;
+        p.tol_steps = tols[r.below(4)];
+        dg_t t = (dg_t)(p.tol_steps * 10);
+        size_t at = r.below(p.spine.size());
+        int m = (int)r.range(2, 6);
+        std::vector<Pt> run;
+        Pt cur2 = p.spine[at];
+        for (int i = 0; i < m; i++) {
+            // steps of 0.3 to 0.9 tolerances, turning left and right
+            dg_t len = std::max<dg_t>(1, t * r.range(30, 90) / 100);
+            dg_t dx = (i & 1) ? 0 : len, dy = (i & 1) ? len : 0;
+            if (r.chance(0.3)) std::swap(dx, dy);
+            if (r.chance(0.3)) dx = -dx;
+            cur2 = Pt{cur2.x + dx, cur2.y + dy};
+            run.push_back(cur2);
+        }
+        p.spine.insert(p.spine.begin() + (long)at + 1, run.begin(), run.end());
+        if (model::centre_line(p).size() < 2) {
+            p.spine = was;
+            p.tol_steps = 0;
         }
     }
     return p;
